@@ -6,7 +6,7 @@ Two families, both judged by invariants over a harness-recorded history (the ora
 ``pool.threading`` / ``pool.time`` by the scheduler's proxies (so ``WorkerPool._lock`` is a scheduler lock, the
 reaper is a managed daemon thread on the logical clock) and ``_borrow / _return_worker / _evict_oldest_locked /
 _reap_expired / _reaper_loop / close / connect / _PooledTransport.close`` are line-traced.  2–4 script threads
-run ``borrow(cmd, work, end ∈ clean|abandon|die|raise)``, ``adv(dt)``, ``close``, ``kill(idx)``, ``count`` under a
+run ``borrow(cmd, work, end ∈ clean|abandon|die|raise)``, ``adv(dt)``, ``sleep(dt)``, ``close``, ``kill(idx)``, ``count`` under a
 drawn schedule.  Invariants: a worker is held by ≤1 borrower; nobody closes a worker that is held; a worker
 whose ``close()`` has begun, that died before the borrow began, or whose previous holder left a stream
 abandoned is never handed out; at every yield point where the pool lock is free (and through the public
@@ -53,15 +53,21 @@ from vgi_rpc.rpc._transport import PipeTransport, _clamped, _exact
 PROPERTY = "C32"
 RULE = (
     "Family sched (Hypothesis + lib/sched.py): max_idle ∈ {0,1,2,3}, idle_timeout ∈ {0.5..8}, 2–4 script threads × 1–4 "
-    "ops from {borrow(cmd 0|1, 0–3 work yields, end clean|abandon|die|raise), adv(dt), close, kill(idx), count}, the "
+    "ops from {borrow(cmd 0|1, 0–3 work yields, end clean|abandon|die|raise), adv(dt), sleep(dt), close, kill(idx), count}, the "
     "pool's own reaper as managed daemon thread, schedule = run-length segments (optionally advancing the logical "
-    "clock) or PCT; line-level yield points in every pool method. Non-trivial = two borrows of different threads "
-    "overlapped (second connect() began before the first returned its worker). Family reuse: max_idle ∈ {1,2,4}, 2–4 "
+    "clock) or PCT; line-level yield points in every pool method; shapes: general, close_race (close() against 1–2 "
+    "borrowers, position-exact long-run schedules), reaper_race (idle workers, clock passes idle_timeout, borrowers "
+    "come back). Non-trivial = two pool operations of different threads overlapped: two borrows (second connect() "
+    "began before the first returned its worker), close() with a borrow in flight, or a reaper sweep with a borrow in "
+    "flight. Family reuse: max_idle ∈ {1,2,4}, 2–4 "
     "sequential borrowers × 1–3 steps from {unary(logs), stream(gen|genh|exch, count, logs, init_logs, cancel_logs, "
     "fail_at, ticks, end exhaust|close|cancel|leave|with), boom}, on_log raising at a drawn set of log positions with "
-    "a drawn exception class, on-exception policy propagate|stop|continue, optional worker kill between borrowers. "
+    "a drawn exception class, on-exception policy propagate (out of the connect() block) | stop (caught, block left normally), optional worker kill between borrowers. "
     "Non-trivial = a borrower other than the last ended abnormally (exception, interrupted call, abandoned / "
-    "cancelled stream, server-side failure). Distinct by SHA-1 of the canonical JSON case."
+    "cancelled stream, server-side failure). Family reuse_grid: the 36 800 two-borrower histories {one unary|stream "
+    "step, optionally after a cleanly finished stream} × {callback raises at log 0 | 1 | 0,1 | every log} × 5 exception "
+    "classes followed by a well-behaved prober (quick: a seed-dependent 1/53 slice; thorough: all). Distinct by SHA-1 "
+    "of the canonical JSON case."
 )
 ASSUMPTIONS = [
     "lib/sched.py serialises the threads faithfully; preemption is possible at lock/event operations, at every traced "
@@ -105,36 +111,110 @@ class _BodyError(Exception):
 
 # =========================================================================== family: sched
 
-_ENDS = ["clean", "clean", "clean", "abandon", "die", "raise"]
+_ENDS = ["clean", "clean", "clean", "clean", "abandon", "die", "raise"]
 _DTS = [0.5, 1.0, 2.0, 5.0, 6.0]
 
-_sched_op = st.one_of(
-    st.tuples(st.just("borrow"), st.sampled_from([0, 0, 0, 1]), st.integers(0, 3), st.sampled_from(_ENDS)).map(list),
-    st.tuples(st.just("borrow"), st.just(0), st.integers(0, 2), st.just("clean")).map(list),
-    st.tuples(st.just("borrow"), st.sampled_from([0, 0, 0, 1]), st.integers(0, 3), st.sampled_from(_ENDS)).map(list),
-    st.tuples(st.just("adv"), st.sampled_from(_DTS)).map(list),
-    st.just(["close"]),
-    st.tuples(st.just("kill"), st.integers(0, 3)).map(list),
-    st.just(["count"]),
-)
+_borrow_op = st.tuples(st.just("borrow"), st.sampled_from([0, 0, 0, 1]), st.integers(0, 3), st.sampled_from(_ENDS)).map(list)
+_clean_borrow = st.tuples(st.just("borrow"), st.just(0), st.integers(0, 2), st.just("clean")).map(list)
+_adv_op = st.tuples(st.just("adv"), st.sampled_from(_DTS)).map(list)
+_sleep_op = st.tuples(st.just("sleep"), st.sampled_from([0.5, 1.0, 2.0, 5.0])).map(list)
+_misc_op = st.one_of(_adv_op, _sleep_op, st.tuples(st.just("kill"), st.integers(0, 3)).map(list), st.just(["count"]))
+
+
+def _schedules(nt: int, long_runs: bool = False, sparse: bool = False) -> Any:
+    if sparse:  # yield points only at lock / event operations and inside the fake spawn / close: ~10 per borrow
+        return st.one_of(
+            S.schedules(nt, min_segments=2, max_segments=8, max_run=8, clock_dts=[1.0, 5.0]),
+            S.schedules(nt, min_segments=2, max_segments=6, max_run=14),
+            S.schedules(nt, min_segments=1, max_segments=4, max_run=8, tails=("rr",)),
+            S.pct_schedules(nt, max_steps=60, max_changes=3),
+        )
+    if long_runs:  # few long segments: "run A up to some point, let B overtake, come back" with exact positions
+        return st.one_of(
+            S.schedules(nt, min_segments=2, max_segments=5, max_run=60),
+            S.schedules(nt, min_segments=2, max_segments=6, max_run=35, clock_dts=[1.0, 5.0]),
+            S.schedules(nt, min_segments=1, max_segments=4, max_run=45, tails=("rr",)),
+        )
+    return st.one_of(
+        S.schedules(nt, min_segments=2, max_segments=12, max_run=10, clock_dts=[0.5, 1.0, 5.0]),
+        S.schedules(nt, min_segments=2, max_segments=14, max_run=25, clock_dts=[1.0, 5.0]),
+        S.schedules(nt, min_segments=2, max_segments=5, max_run=60),
+        S.schedules(nt, max_segments=5, max_run=12, tails=("rr",)),
+        S.pct_schedules(nt, max_steps=250, max_changes=3),
+    )
+
+
+def _with_schedule(draw: Any, case: dict[str, Any], long_runs: bool = False) -> dict[str, Any]:
+    """Pick the preemption granularity (every traced line | lock operations only) and a schedule that suits it."""
+    nt = len(case["threads"]) + 1  # + the pool's reaper (thread index 0)
+    case["trace"] = draw(st.sampled_from(["lines", "locks"]))
+    case["schedule"] = draw(_schedules(nt, long_runs=long_runs, sparse=case["trace"] == "locks"))
+    return case
 
 
 def _sched_cases() -> Any:
+    """General shape: 2–3 borrower threads (mostly borrows) + sometimes a controller thread (adv / kill / count / close)."""
+
     @st.composite
     def build(draw: Any) -> dict[str, Any]:
-        n = draw(st.sampled_from([2, 2, 3, 3, 4]))
-        threads = [draw(st.lists(_sched_op, min_size=1, max_size=4)) for _ in range(n)]
-        nt = n + 1  # + the pool's reaper (thread index 0)
-        schedule = draw(st.one_of(
-            S.schedules(nt, min_segments=2, max_segments=12, max_run=10, clock_dts=[0.5, 1.0, 5.0]),
-            S.schedules(nt, min_segments=2, max_segments=14, max_run=25, clock_dts=[1.0, 5.0]),
-            S.schedules(nt, max_segments=6, max_run=40),
-            S.schedules(nt, max_segments=5, max_run=12, tails=("rr",)),
-            S.pct_schedules(nt, max_steps=250, max_changes=3),
-        ))
-        return {"max_idle": draw(st.sampled_from([0, 1, 1, 2, 2, 3])),
-                "idle_timeout": draw(st.sampled_from([0.5, 1.0, 2.0, 5.0, 8.0])),
-                "threads": threads, "schedule": schedule}
+        nb = draw(st.sampled_from([2, 2, 3]))
+        threads = [draw(st.lists(st.one_of(_borrow_op, _borrow_op, _borrow_op, _clean_borrow, _misc_op), min_size=1, max_size=4))
+                   for _ in range(nb)]
+        if draw(st.booleans()):
+            ctl = draw(st.lists(_misc_op, min_size=1, max_size=3))
+            if draw(st.sampled_from([True, False, False])):
+                ctl.insert(draw(st.integers(0, len(ctl))), ["close"])
+            threads.append(ctl)
+        return _with_schedule(draw, {"max_idle": draw(st.sampled_from([1, 2, 1, 3, 0, 2])),
+                                     "idle_timeout": draw(st.sampled_from([0.5, 1.0, 2.0, 5.0, 8.0])), "threads": threads})
+
+    return build()
+
+
+def _close_race_cases() -> Any:
+    """close() racing 1–2 borrowers that are borrowing / returning right now (short scripts, position-exact schedules)."""
+
+    @st.composite
+    def build(draw: Any) -> dict[str, Any]:
+        nb = draw(st.sampled_from([1, 1, 2]))
+        threads = [draw(st.lists(_clean_borrow, min_size=1, max_size=2)) for _ in range(nb)]
+        closer: list[Any] = [["close"]]
+        if draw(st.booleans()):
+            closer.append(draw(st.sampled_from([["count"], ["borrow", 0, 0, "clean"], ["close"]])))
+        threads.insert(draw(st.integers(0, len(threads))), closer)
+        return _with_schedule(draw, {"max_idle": draw(st.sampled_from([1, 2, 3])), "idle_timeout": 8.0, "threads": threads},
+                              long_runs=True)
+
+    return build()
+
+
+def _reaper_race_cases() -> Any:
+    """Workers go idle, the clock passes idle_timeout, the reaper sweeps while borrowers come back for the same command."""
+
+    @st.composite
+    def build(draw: Any) -> dict[str, Any]:
+        timeout = draw(st.sampled_from([0.5, 1.0, 2.0]))
+        over = st.sampled_from([timeout, timeout, timeout + 0.5, 2 * timeout, 5.0])
+        nb = draw(st.sampled_from([1, 2, 2]))
+        threads = []
+        for _ in range(nb):
+            ops: list[Any] = [draw(_clean_borrow)]
+            for _ in range(draw(st.integers(1, 2))):
+                if draw(st.sampled_from([True, True, False])):
+                    ops.append([draw(st.sampled_from(["sleep", "sleep", "adv"])), draw(over)])
+                ops.append(draw(st.one_of(_clean_borrow, _clean_borrow, _borrow_op)))
+            threads.append(ops)
+        if draw(st.booleans()):
+            threads.append([[draw(st.sampled_from(["sleep", "adv"])), draw(over)],
+                            draw(st.sampled_from([["count"], ["adv", 0.5], ["kill", 0], ["borrow", 0, 0, "clean"]]))])
+        case = {"max_idle": draw(st.sampled_from([1, 2, 3])), "idle_timeout": timeout, "threads": threads}
+        case = _with_schedule(draw, case, long_runs=True)
+        if case["trace"] == "lines" and draw(st.booleans()):
+            nt = len(threads) + 1
+            case["schedule"] = draw(st.one_of(
+                S.schedules(nt, min_segments=2, max_segments=8, max_run=30, clock_dts=[timeout, 2 * timeout]),
+                S.schedules(nt, min_segments=1, max_segments=4, max_run=20, clock_dts=[timeout, 5.0], tails=("rr",))))
+        return case
 
     return build()
 
@@ -152,6 +232,8 @@ class _Hist:
         self.pool_close_returned = False
         self.closing = 0
         self.any_overlap = False
+        self.reap_overlap = False
+        self.close_overlap = False
         self.inflight: set[str] = set()
         self._serial = 0
 
@@ -226,28 +308,42 @@ def run_sched(case: dict[str, Any]) -> Outcome:
         sch.install(pool_mod)
         sch.patch(pool_mod, "atexit", _NoAtexit)
         sch.patch(pool_mod, "SubprocessTransport", F.make_sched_transport(hist, sch))
-        sch.trace_code(WorkerPool._borrow, WorkerPool._return_worker, WorkerPool._evict_oldest_locked,
-                       WorkerPool._reap_expired, WorkerPool._reaper_loop, WorkerPool.close,
-                       WorkerPool.connect.__wrapped__, _PooledTransport.close)  # type: ignore[attr-defined]
+        if case.get("trace", "lines") == "lines":
+            sch.trace_code(WorkerPool._borrow, WorkerPool._return_worker, WorkerPool._evict_oldest_locked,
+                           WorkerPool._reap_expired, WorkerPool._reaper_loop, WorkerPool.close,
+                           WorkerPool.connect.__wrapped__, _PooledTransport.close)  # type: ignore[attr-defined]
         pool = WorkerPool(max_idle=max_idle, idle_timeout=idle_timeout)  # spawns the reaper: managed thread #0
         if not isinstance(pool._lock, S.Lock):
             raise S.SchedulerError("proxy threading was not picked up by WorkerPool.__init__")
-        state = {"max_seen": 0}
+        state = {"max_seen": 0, "reaping": False}
+        real_reap = pool._reap_expired
+
+        def reap_marked() -> None:  # observation only: lets the probe know a sweep is in progress
+            state["reaping"] = True
+            try:
+                real_reap()
+            finally:
+                state["reaping"] = False
+
+        pool._reap_expired = reap_marked  # type: ignore[method-assign]
 
         def idle_now() -> int:
             return sum(len(d) for d in pool._idle.values())
 
-        def check_idle(n: int, source: str) -> None:
+        def check_idle(n: int, source: str, closed: bool | None = None) -> None:
             if n > state["max_seen"]:
                 state["max_seen"] = n
             if n > max_idle:
                 hist.problem(_idle_key(max_idle, n),
                              f"{n} idle worker(s) with max_idle={max_idle} (seen via {source}); history: {hist.tail()}")
-            if hist.pool_close_returned and n > 0:
+            if (hist.pool_close_returned if closed is None else closed) and n > 0:
                 hist.problem("idle_after_pool_close",
                              f"{n} idle worker(s) after WorkerPool.close() returned (seen via {source}); history: {hist.tail()}")
 
         def probe(tag: Any) -> None:
+            me = sch.current()
+            if hist.inflight and me is not None and me.tid == 0 and state["reaping"]:
+                hist.reap_overlap = True  # the reaper sweeps while a borrow is in flight
             if not pool._lock.locked():  # states no thread can observe while the lock is held are not judged
                 check_idle(idle_now(), "yield-point probe")
 
@@ -257,6 +353,8 @@ def run_sched(case: dict[str, Any]) -> Outcome:
             me = f"t{ti}"
             if hist.inflight:
                 hist.any_overlap = True
+            if hist.closing:
+                hist.close_overlap = True
             hist.inflight.add(me)
             start = hist.ev("connect", cmd)
             try:
@@ -292,8 +390,13 @@ def run_sched(case: dict[str, Any]) -> Outcome:
                 elif kind == "adv":
                     hist.ev("adv", op[1])
                     sch.advance(float(op[1]))
+                elif kind == "sleep":  # blocks on the logical clock: wakes together with whoever else is due then
+                    hist.ev("sleep", op[1])
+                    sch.time.sleep(float(op[1]))
                 elif kind == "close":
                     hist.ev("pool_close")
+                    if hist.inflight:
+                        hist.close_overlap = True
                     hist.closing += 1
                     pool.close()
                     hist.closing -= 1
@@ -307,17 +410,25 @@ def run_sched(case: dict[str, Any]) -> Outcome:
                     if alive:
                         alive[int(op[1]) % len(alive)].kill()
                 elif kind == "count":
+                    # a value read through a method call is valid at some instant *during* the call: "closed" only
+                    # counts if close() had already returned when the call began
+                    was_closed = hist.pool_close_returned
                     n = pool.idle_count
                     hist.ev("idle_count", n)
-                    check_idle(n, "pool.idle_count")
+                    check_idle(n, "pool.idle_count", was_closed)
+                    was_closed = hist.pool_close_returned
                     m = pool.metrics
-                    check_idle(m.idle, "pool.metrics.idle")
+                    check_idle(m.idle, "pool.metrics.idle", was_closed)
 
         for ti, script in enumerate(scripts):
             sch.spawn(worker, ti, script, name=f"t{ti}")
         res = sch.run()
         res.raise_for_harness(allow_deadlock=False)
-        # teardown by the unmanaged main thread (no yields any more): close the pool, look at what is left
+        # teardown by the unmanaged main thread (no yields any more): close the pool, look at what is left.
+        # Every managed thread is finished or aborted now; a daemon (the reaper) aborted exactly on the line that
+        # leaves a `with lock:` block never runs __exit__, so a still-owned lock is stale bookkeeping, not a holder.
+        if pool._lock.locked():
+            pool._lock._owner = None
         pool.close()
         hist.pool_close_returned = True
         check_idle(idle_now(), "after final close()")
@@ -330,16 +441,18 @@ def run_sched(case: dict[str, Any]) -> Outcome:
         out.fail(key, what)
 
     # ---- coverage
-    out.nontrivial = hist.any_overlap
+    out.nontrivial = hist.any_overlap or hist.close_overlap or hist.reap_overlap
     kinds = [e[2] for e in hist.events]
     n_borrow = kinds.count("handout")
     reaped = metrics.evictions_idle > 0
     out.label(f"max_idle={max_idle}", f"threads={len(scripts)}",
               "borrows_overlap" if hist.any_overlap else "borrows_sequential",
+              *(["close_overlaps_borrow"] if hist.close_overlap else []),
+              *(["reaper_sweep_overlaps_borrow"] if hist.reap_overlap else []),
               "blocked_on_lock" if any(isinstance(t, tuple) and t and t[0] == "block" and isinstance(t[1], tuple)
                                        and t[1][0] == "lock" for _, _, t in res.trace) else "never_blocked",
               f"preempt={'0' if res.preemptions == 0 else '1-3' if res.preemptions <= 3 else '4+'}",
-              f"sched={S._normalize_schedule(case.get('schedule'))['mode']}")
+              f"sched={S._normalize_schedule(case.get('schedule'))['mode']}", f"trace={case.get('trace', 'lines')}")
     if metrics.reuses > 0:
         out.label("reused")
     if reaped:
@@ -408,7 +521,7 @@ def _borrower(abnormal_bias: bool) -> Any:
             raise_at = draw(st.one_of(st.just([]), st.lists(st.integers(0, 5), max_size=2, unique=True).map(sorted)))
         return {"steps": steps, "raise_at": raise_at,
                 "exc": draw(st.sampled_from(["boom", "boom", "boom", "keyerror", "oserror", "stopiter", "rpcerror"])),
-                "on_exc": draw(st.sampled_from(["propagate", "stop", "stop", "continue"])),
+                "on_exc": draw(st.sampled_from(["propagate", "stop"])),
                 "kill_after": draw(st.sampled_from([False] * 7 + [True]))}
 
     return build()
@@ -424,13 +537,41 @@ def _reuse_cases(worker: str) -> Any:
         last["raise_at"] = []
         last["kill_after"] = False
         borrowers.append(last)
-        if worker == "subprocess":
-            for b in borrowers:
-                if b["on_exc"] == "continue":
-                    b["on_exc"] = "stop"
         return {"worker": worker, "max_idle": draw(st.sampled_from([1, 2, 4])), "borrowers": borrowers}
 
     return build()
+
+
+def _grid_cases() -> list[dict[str, Any]]:
+    """Small two-borrower histories: one (optionally after a cleanly finished stream) step × callback behaviour, then a prober.
+
+    Dense around every read position: callback raising at the first / second / first two / every log line, five
+    exception classes.  Cases in which the callback would never fire are left out.
+    """
+    prober = {"steps": [["unary", 1], ["stream", "gen", 1, 1, 0, 0, -1, 1, "exhaust"]], "raise_at": [], "exc": "boom",
+              "on_exc": "stop", "kill_after": False}
+    steps: list[list[Any]] = [["unary", 1], ["unary", 2]]
+    for kind in ("gen", "genh", "exch"):
+        for logs in (0, 1, 2):
+            for init_logs in (0, 1):
+                for cancel_logs in (0, 1):
+                    for fail_at in (-1, 1):
+                        for ticks in (0, 1, 3):
+                            for end in ("exhaust", "close", "cancel", "leave", "with"):
+                                if logs == 0 and init_logs == 0 and not (cancel_logs and end == "cancel"):
+                                    continue  # no log line can ever reach the callback
+                                steps.append(["stream", kind, 2, logs, init_logs, cancel_logs, fail_at, ticks, end])
+    out: list[dict[str, Any]] = []
+    n = 0
+    for step in steps:
+        for prefix in ([], [["stream", "gen", 1, 0, 0, 0, -1, 0, "exhaust"]]):
+            for raise_at in ([0], [1], [0, 1], [0, 1, 2, 3, 4, 5, 6, 7]):
+                for exc in ("boom", "keyerror", "oserror", "stopiter", "rpcerror"):
+                    n += 1
+                    first = {"steps": [*prefix, step], "raise_at": raise_at, "exc": exc,
+                             "on_exc": "stop" if n % 2 else "propagate", "kill_after": False}
+                    out.append({"worker": "thread", "max_idle": 1, "borrowers": [first, prober]})
+    return out
 
 
 class _WatchRaw(io.RawIOBase):
@@ -733,6 +874,24 @@ def _run_steps(svc: Any, b: _Borrow) -> None:
                 return
 
 
+def _key(prev: _Borrow) -> str:
+    """Signature of how the holder responsible for a dirty connection left it (no ids, no sizes)."""
+    statuses = [s for s, _ in prev.steps]
+    bad = prev.first_bad()
+    if bad not in statuses:
+        return f"dirty_reuse/{bad}"
+    i = statuses.index(bad)
+    key = f"dirty_reuse/{bad}"
+    if bad == "header_interrupted":
+        io_steps = [st_ for st_ in prev.spec["steps"] if st_[0] != "boom"]
+        key += "/after_closed_stream" if any(st_[0] == "stream" for st_ in io_steps[:i]) else "/first_stream"
+    if not prev.steps[i][1] and prev.cb_raised:
+        key += f"/cb={prev.spec['exc']}"
+    if i < len(statuses) - 1:
+        key += "+later_calls"
+    return key
+
+
 def run_reuse(case: dict[str, Any]) -> Outcome:
     out = Outcome()
     worker_kind = case.get("worker", "thread")
@@ -841,9 +1000,8 @@ def run_reuse(case: dict[str, Any]) -> Outcome:
     for b in borrows:
         if b.worker is None:
             continue
-        prev = borrows[b.reused_from] if b.reused_from is not None else None
         foreign = sorted({t for t in b.seen if not _own(t, b)})
-        if prev is None:
+        if b.reused_from is None:
             # a fresh worker: whatever goes wrong here is not the pool's doing -> harness problem
             if foreign:
                 raise S.SchedulerError(f"borrower {b.idx} on a fresh worker saw foreign tags {foreign}")
@@ -852,25 +1010,29 @@ def run_reuse(case: dict[str, Any]) -> Outcome:
             continue
         if b.worker in poisoned:
             continue
+        direct = borrows[b.reused_from]
+        prev = direct
+        # holders that did no I/O at all neither dirtied nor vouched for the connection: look further back
+        while not prev.steps and not prev.unexpected and prev.reused_from is not None:
+            prev = borrows[prev.reused_from]
         pf, certain = prev.final()
+        key = _key(prev)
         who = (f"previous holder: borrower {prev.idx}, steps {prev.spec['steps']}, raise_at={prev.spec['raise_at']}, "
                f"exc={prev.spec['exc']}, on_exc={prev.spec['on_exc']}, step results {[s for s, _ in prev.steps]}")
         saw = f"borrower {b.idx} then observed tags {sorted(set(b.seen))[:6]}, errors: {b.unexpected[:2]}"
         problem: tuple[str, str] | None = None
-        if b.worker in killed and prev.spec.get("kill_after"):
+        if b.worker in killed and direct.spec.get("kill_after"):
             problem = ("dead_worker_handed_out",
-                       f"worker {b.worker} exited after borrower {prev.idx} returned it and was handed to borrower {b.idx}; {saw}")
+                       f"worker {b.worker} exited after borrower {direct.idx} returned it and was handed to borrower {b.idx}; {saw}")
         elif certain and pf in _DEFINITE:
-            problem = (f"reuse_after/{pf}",
-                       f"worker {b.worker} was handed to borrower {b.idx} although its previous holder left the connection "
-                       f"off a message boundary ({pf}); {who}; {saw}")
+            problem = (key, f"worker {b.worker} was handed to borrower {b.idx} although its previous holder certainly left the "
+                            f"connection off a message boundary ({pf}); {who}; {saw}")
         elif foreign:
-            problem = (f"foreign_bytes/{prev.first_bad()}",
-                       f"borrower {b.idx} read tags {foreign} produced for another borrower on re-used worker {b.worker}; {who}; {saw}")
+            problem = (key, f"borrower {b.idx} read tags {foreign} produced for another borrower on re-used worker {b.worker}; "
+                            f"{who}; {saw}")
         elif b.unexpected:
-            problem = (f"desync/{prev.first_bad()}",
-                       f"borrower {b.idx} did nothing wrong but failed on re-used worker {b.worker} ({b.unexpected[0]}): the "
-                       f"connection was not at a message boundary; {who}")
+            problem = (key, f"borrower {b.idx} did nothing wrong but failed on re-used worker {b.worker} ({b.unexpected[0]}): "
+                            f"the connection was not at a message boundary; {who}")
         if problem is not None:
             poisoned.add(b.worker)
             problems.append(problem)
@@ -905,7 +1067,14 @@ def run_reuse(case: dict[str, Any]) -> Outcome:
 
 
 def main(chk: Check) -> None:
-    chk.explore("sched", _sched_cases(), run_sched, quick=700, thorough=20000)
-    chk.explore("reuse", _reuse_cases("thread"), run_reuse, quick=350, thorough=4000)
+    chk.explore("sched", _sched_cases(), run_sched, quick=800, thorough=20000)
+    chk.explore("sched_close", _close_race_cases(), run_sched, quick=450, thorough=8000)
+    chk.explore("sched_reaper", _reaper_race_cases(), run_sched, quick=450, thorough=8000)
+    chk.explore("reuse", _reuse_cases("thread"), run_reuse, quick=300, thorough=4000)
+    grid = _grid_cases()
+    if chk.quick:  # a seed-dependent 1/53 slice (53 is coprime to every loop length of the grid)
+        grid = [c for i, c in enumerate(grid) if i % 53 == chk.seed % 53]
+    chk.extra["reuse_grid_size"] = len(grid)
+    chk.enumerate("reuse_grid", grid, run_reuse)
     if not chk.quick:
         chk.explore("reuse_subprocess", _reuse_cases("subprocess"), run_reuse, quick=1, thorough=64)
